@@ -10,6 +10,7 @@ import (
 	"google.golang.org/grpc"
 	"google.golang.org/grpc/codes"
 	"google.golang.org/grpc/metadata"
+	"google.golang.org/grpc/peer"
 	"google.golang.org/grpc/status"
 	"google.golang.org/protobuf/types/known/wrapperspb"
 
@@ -53,6 +54,14 @@ type vNet[U, D any] struct {
 
 type vNetKey struct{}
 
+// the network client as the network server sees it
+type vAddr struct{}
+
+func (vAddr) Network() string { return "vnet" }
+func (vAddr) String() string  { return "network-client:1" }
+
+var vNetPeer = &peer.Peer{Addr: vAddr{}}
+
 func vNewNet[U, D any](cctx context.Context, capacity int, strip bool) *vNet[U, D] {
 	if capacity == 0 {
 		capacity = 64
@@ -61,6 +70,7 @@ func vNewNet[U, D any](cctx context.Context, capacity int, strip bool) *vNet[U, 
 	// what a gRPC server does: the handler's context carries the caller's outgoing metadata as
 	// incoming metadata (plus whatever server interceptors put there: vNetKey stands for that)
 	sctx := context.WithValue(context.Background(), vNetKey{}, "interceptor-value")
+	sctx = peer.NewContext(sctx, vNetPeer)
 	if md, ok := metadata.FromOutgoingContext(cctx); ok {
 		md = md.Copy()
 		if strip {
@@ -311,6 +321,7 @@ type vE2EApp struct {
 	tunnelMD   metadata.MD
 	tunnelMDok bool
 	marker     any
+	peer       *peer.Peer
 	deadline   time.Duration
 	hasDL      bool
 	hctx       context.Context
@@ -324,6 +335,7 @@ func (a *vE2EApp) observe(name string, ctx context.Context) {
 	a.inMD, _ = metadata.FromIncomingContext(ctx)
 	a.tunnelMD, a.tunnelMDok = TunnelMetadataFromIncomingContext(ctx)
 	a.marker = ctx.Value(vNetKey{})
+	a.peer, _ = peer.FromContext(ctx)
 	a.deadline, a.hasDL = verifDeadline(ctx)
 }
 
@@ -847,6 +859,7 @@ func verifH_E2E() {
 	ctx, cancel := context.WithCancel(ctx)
 	defer cancel()
 	var hdrT, tlrT metadata.MD
+	var callPeer peer.Peer
 	var usedCh TunnelChannel
 	var got [][]byte
 	var final error
@@ -889,7 +902,7 @@ func verifH_E2E() {
 			// a unary call is one blocking operation: the event strikes from another goroutine
 			verifGo("striker", func() { strike(when) })
 		}
-		final = ch.Invoke(ctx, method, &wrapperspb.BytesValue{Value: reqs[0]}, resp, grpc.Header(&hdrT), grpc.Trailer(&tlrT), WithTunnelChannel(&usedCh))
+		final = ch.Invoke(ctx, method, &wrapperspb.BytesValue{Value: reqs[0]}, resp, grpc.Header(&hdrT), grpc.Trailer(&tlrT), WithTunnelChannel(&usedCh), grpc.Peer(&callPeer))
 		if final == nil {
 			got = append(got, resp.Value)
 		}
@@ -990,6 +1003,10 @@ afterCall:
 			verifAssert(final != nil && final != io.EOF, "C04.e2e-call-on-a-closed-tunnel-ends-non-ok")
 		}
 	}
+	if shape == 0 && reverse && usedCh != nil {
+		// the caller of an RPC over a reverse tunnel can ask who is at the other end of that tunnel
+		verifAssert(callPeer.Addr == vNetPeer.Addr, "C17.e2e-peer-call-option-names-the-tunnel-peer")
+	}
 	verifAssert(len(app.calls) <= 1, "C08.e2e-at-most-one-invocation")
 	if len(app.calls) == 1 {
 		verifAssert(app.calls[0] == svcName+"/"+mname, "C08.e2e-exactly-the-named-handler")
@@ -1004,6 +1021,7 @@ afterCall:
 		verifAssert(app.tunnelMDok && len(app.tunnelMD["opener"]) == 1 && app.tunnelMD["opener"][0] == "me", "C17.e2e-handler-sees-the-opening-metadata")
 		if !reverse {
 			verifAssert(app.marker == any("interceptor-value"), "C17.e2e-handler-context-derives-from-the-tunnel-opening-call")
+			verifAssert(app.peer == vNetPeer, "C17.e2e-handler-sees-the-peer-of-the-tunnel-opening-call")
 		}
 		if withReqMD && len(reqMD["grpc-timeout"]) == 1 {
 			verifCover("e2e-timeout")
